@@ -159,7 +159,6 @@ def auer_unrolled(t, A, method, clause, expS, expP, N=3):
         saved = list(t.pre)
         rr = z3.Const("r!q", REGION)
         t.pre = [A.eps >= 0, z3.ForAll([rr], z3.And(*[w(rr) >= 0 for w in A.WID]))]
-        t.bounded_fn = bounded
         try:
             paths = t.run(ALGOS["Auer"], "Auer." + method, [], self_val=obj, setmode=False)
         finally:
